@@ -34,6 +34,19 @@ class BreakEx(Exception):
     pass
 
 
+class BodyEscape(Exception):
+    """return / break / continue of a with-body leaving through an inlined @contextmanager generator: it must
+    run the generator's finally clauses and with-exits but is not the generator function's own return"""
+    def __init__(self, inner):
+        self.inner = inner
+
+
+class CtxGenInst(object):
+    """the object a @contextlib.contextmanager function returns when called: nothing has run yet"""
+    def __init__(self, f, args, kwargs):
+        self.f, self.args, self.kwargs = f, args, kwargs
+
+
 class ContinueEx(Exception):
     pass
 
@@ -639,6 +652,12 @@ class Exec(object):
             if f is not self.hooks.get('target_func') or self.ghost.get('entered_target'):
                 return self.hooks['apply_contract'](self, c, f, args, kwargs)
             self.ghost['entered_target'] = True
+        hook = None
+        if getattr(f, 'is_ctxgen', False):
+            hook = getattr(self, '_ctxgen_run', None)
+            if hook is None:
+                return CtxGenInst(f, list(args), dict(kwargs))
+            self._ctxgen_run = None
         node = f.node
         a = node.args
         params = [x.arg for x in a.posonlyargs + a.args]
@@ -693,6 +712,8 @@ class Exec(object):
         names, glob = self.func_locals(f)
         fr = Frame(f, f.module, loc, names, f.env)
         fr.globalnames = glob
+        if hook is not None:
+            fr.yield_hook = hook
         self.frames.append(fr)
         self.depth += 1
         if self.depth > 60:
@@ -972,34 +993,71 @@ class Exec(object):
         return '%s:%s' % (fn, getattr(node, 'lineno', '?'))
 
     def st_With(self, s):
+        self._with_items(s, 0)
+
+    def _with_items(self, s, i):
         from . import natives
-        mgrs = []
-        try:
-            for it in s.items:
-                m = self.eval(it.context_expr)
-                v = natives.ctx_enter(self, m)
-                mgrs.append(m)
-                if it.optional_vars is not None:
-                    self.assign(it.optional_vars, v)
+        if i == len(s.items):
             self.exec_block(s.body)
+            return
+        it = s.items[i]
+        m = self.eval(it.context_expr)
+        if isinstance(m, CtxGenInst):
+            return self._with_ctxgen(s, i, it, m)
+        v = natives.ctx_enter(self, m)
+        try:
+            if it.optional_vars is not None:
+                self.assign(it.optional_vars, v)
+            self._with_items(s, i + 1)
         except PyRaise as e:
-            supp = False
-            for m in reversed(mgrs):
-                if natives.ctx_exit(self, m, e.exc):
-                    supp = True
-            mgrs = []
-            if not supp:
+            if not natives.ctx_exit(self, m, e.exc):
                 raise
-        except (ReturnEx, BreakEx, ContinueEx):
-            for m in reversed(mgrs):
-                natives.ctx_exit(self, m, None)
-            mgrs = []
+        except (ReturnEx, BreakEx, ContinueEx, BodyEscape):
+            natives.ctx_exit(self, m, None)
             raise
         except (PathEnd, Unsupported):
             raise
         else:
-            for m in reversed(mgrs):
-                natives.ctx_exit(self, m, None)
+            natives.ctx_exit(self, m, None)
+
+    def _with_ctxgen(self, s, i, it, inst):
+        """`with f(...) as x: body` for a @contextlib.contextmanager generator function f: the generator body runs
+        inline and the rest of the with statement runs at its yield (in the frame of the with statement) - an
+        exception of the body arrives at the yield as gen.throw() delivers it, a return/break/continue of the body
+        unwinds the generator's finally clauses.  Exactly one yield per run is supported."""
+        depth = len(self.frames)
+        state = {'yielded': False}
+
+        def hook(v):
+            if state['yielded']:
+                raise Unsupported('@contextmanager generator yields a second time')
+            state['yielded'] = True
+            saved = self.frames[depth:]
+            del self.frames[depth:]
+            try:
+                if it.optional_vars is not None:
+                    self.assign(it.optional_vars, v)
+                self._with_items(s, i + 1)
+            except (ReturnEx, BreakEx, ContinueEx) as e:
+                raise BodyEscape(e)
+            finally:
+                self.frames[depth:] = saved
+            return None
+        self._ctxgen_run = hook
+        try:
+            self.call_function(inst.f, inst.args, inst.kwargs)
+        except BodyEscape as b:
+            raise b.inner
+        finally:
+            self._ctxgen_run = None
+        if not state['yielded']:
+            self.throw('RuntimeError', "generator didn't yield")
+
+    def ex_Yield(self, e):
+        hook = getattr(self.frames[-1], 'yield_hook', None)
+        if hook is None:
+            raise Unsupported('yield outside a @contextmanager generator used in a with statement')
+        return hook(self.eval(e.value) if e.value is not None else None)
 
     def st_Raise(self, s):
         if s.exc is None:
@@ -1050,7 +1108,7 @@ class Exec(object):
                 self.exec_block(s.orelse)
         except (PathEnd, Unsupported, PathBudget):
             raise
-        except (PyRaise, ReturnEx, BreakEx, ContinueEx):
+        except (PyRaise, ReturnEx, BreakEx, ContinueEx, BodyEscape):
             self.exec_block(s.finalbody)
             raise
         else:
